@@ -9,7 +9,7 @@
 //! levels" error appears on each ladder) vs the Lean skeleton model's prediction.
 use crate::c01::{LEVELS, level_name, level_of};
 use crate::tgen;
-use emmylua_parser::{LuaLanguageLevel, LuaParser};
+use emmylua_parser::LuaLanguageLevel;
 use serde_json::{Value, json};
 use std::collections::HashSet;
 use std::io::{BufRead, BufReader, Write};
@@ -115,6 +115,38 @@ pub fn child_main() {
         let _ = writeln!(o, "ready");
         let _ = o.flush();
     }
+    // one long-lived worker with the stack size of a tokio worker thread; a stack overflow aborts the
+    // whole process, which is what the parent observes
+    type Job = (LuaLanguageLevel, bool, String);
+    type Res = Option<(usize, bool, usize, Option<String>)>;
+    let (jtx, jrx) = std::sync::mpsc::channel::<Job>();
+    let (rtx, rrx) = std::sync::mpsc::channel::<Res>();
+    std::thread::Builder::new()
+        .stack_size(STACK_BYTES)
+        .spawn(move || {
+            // self-test of the watchdog (never set by `check`): inputs containing the marker behave like a
+            // parser that never returns and keeps allocating
+            let selftest = std::env::var("VH_TREE_SELFTEST_HANG").ok();
+            for (level, doc, text) in jrx {
+                if let Some(m) = &selftest {
+                    if text.contains(m.as_str()) {
+                        let mut junk: Vec<Vec<u8>> = Vec::new();
+                        loop {
+                            junk.push(vec![1u8; 1 << 20]);
+                            std::thread::sleep(Duration::from_micros(200));
+                        }
+                    }
+                }
+                // parse + the full C01 oracle (text equality, token contiguity, lexer tiling)
+                let f = crate::c01::oracle_text_ex(&text, level, doc);
+                let panicked = f.failure.as_deref().map(|m| m.starts_with("panic:")).unwrap_or(false);
+                let r = if panicked { None } else { Some((f.errors, f.too_deep, f.lexer_tokens, f.failure)) };
+                if rtx.send(r).is_err() {
+                    break;
+                }
+            }
+        })
+        .expect("spawn");
     for line in stdin.lock().lines() {
         let Ok(line) = line else { break };
         let mut it = line.split(' ');
@@ -122,29 +154,21 @@ pub fn child_main() {
         let doc = it.next() == Some("1");
         let text = unhex(it.next().unwrap_or("-")).unwrap_or_default();
         let t0 = Instant::now();
-        let h = std::thread::Builder::new()
-            .stack_size(STACK_BYTES)
-            .spawn(move || {
-                let r = std::panic::catch_unwind(|| {
-                    let tree = LuaParser::parse(&text, crate::c01::config(level, doc));
-                    let errs = tree.get_errors();
-                    let too_deep = errs.iter().any(|e| e.message.contains("too many syntax levels"));
-                    let lossless = tree.get_red_root().text() == text.as_str();
-                    (errs.len(), too_deep, lossless)
-                });
-                r
-            })
-            .expect("spawn");
-        let res = h.join();
+        if jtx.send((level, doc, text)).is_err() {
+            break;
+        }
+        let res = rrx.recv();
         let us = t0.elapsed().as_micros();
         let mut out = stdout.lock();
         match res {
-            Ok(Ok((nerr, too_deep, lossless))) => {
-                let _ = writeln!(out, "ok {nerr} {} {} {us}", too_deep as u8, lossless as u8);
+            Ok(Some((nerr, too_deep, ntoks, failure))) => {
+                let fh = failure.as_deref().map(hex).unwrap_or_else(|| "-".to_string());
+                let _ = writeln!(out, "ok {nerr} {} {} {us} {ntoks} {fh}", too_deep as u8, failure.is_none() as u8);
             }
-            _ => {
-                let _ = writeln!(out, "panic 0 0 0 {us}");
+            Ok(None) => {
+                let _ = writeln!(out, "panic 0 0 0 {us} 0 -");
             }
+            Err(_) => break,
         }
         let _ = out.flush();
     }
@@ -161,10 +185,21 @@ pub struct Case {
 
 #[derive(Debug, Clone)]
 pub enum Outcome {
-    Ok { errors: usize, too_deep: bool, lossless: bool, micros: u128 },
+    Ok { errors: usize, too_deep: bool, lossless: bool, micros: u128, lexer_tokens: usize, failure: Option<String> },
     Panic,
     Crash(String), // child died: stack overflow / abort
     Timeout(u128),
+}
+
+impl Outcome {
+    pub fn describe(&self) -> String {
+        match self {
+            Outcome::Ok { .. } => "ok".into(),
+            Outcome::Panic => "LuaParser::parse panicked".into(),
+            Outcome::Crash(st) => format!("the child process died while parsing on a 2 MiB stack / 4 GiB address space ({st}): stack overflow, abort or out of memory"),
+            Outcome::Timeout(ms) => format!("no result within the budget of {ms} ms in three attempts (hang)"),
+        }
+    }
 }
 
 struct Child {
@@ -175,7 +210,17 @@ struct Child {
 
 fn spawn_child() -> Child {
     let exe = std::env::current_exe().expect("exe");
-    let mut proc = Command::new(exe).arg("c02-child").stdin(Stdio::piped()).stdout(Stdio::piped()).stderr(Stdio::null()).spawn().expect("child");
+    // 4 GiB address-space limit: a memory blow-up (e.g. an error list growing without bound) ends as an
+    // allocation failure (abort) of the child, not as an out-of-memory condition of the machine
+    let mut proc = Command::new("sh")
+        .arg("-c")
+        .arg("ulimit -v 4194304 2>/dev/null; exec \"$0\" c02-child")
+        .arg(exe)
+        .stdin(Stdio::piped())
+        .stdout(Stdio::piped())
+        .stderr(Stdio::null())
+        .spawn()
+        .expect("child");
     let stdin = proc.stdin.take().unwrap();
     let stdout = proc.stdout.take().unwrap();
     let (tx, rx) = std::sync::mpsc::channel();
@@ -197,67 +242,111 @@ pub fn budget(len: usize) -> Duration {
     Duration::from_millis(3000) + Duration::from_micros((len as u64) * 40)
 }
 
-/// one attempt at one case with the given budget
-fn attempt(child: &mut Child, c: &Case, b: Duration) -> Outcome {
-    let line = format!("{} {} {}\n", level_name(c.level), c.doc as u8, hex(&c.text));
-    let sent = child.stdin.write_all(line.as_bytes()).and_then(|_| child.stdin.flush());
-    if sent.is_err() {
-        let _ = child.proc.kill();
-        let _ = child.proc.wait();
-        *child = spawn_child();
-        let _ = child.stdin.write_all(line.as_bytes()).and_then(|_| child.stdin.flush());
-    }
-    match child.lines.recv_timeout(b) {
-        Ok(l) => {
-            let f: Vec<&str> = l.split(' ').collect();
-            if f[0] == "ok" && f.len() >= 5 {
-                Outcome::Ok {
-                    errors: f[1].parse().unwrap_or(0),
-                    too_deep: f[2] == "1",
-                    lossless: f[3] == "1",
-                    micros: f[4].parse().unwrap_or(0),
-                }
-            } else {
-                Outcome::Panic
-            }
+fn case_line(c: &Case) -> String {
+    format!("{} {} {}\n", level_name(c.level), c.doc as u8, hex(&c.text))
+}
+
+fn parse_answer(l: &str) -> Outcome {
+    let f: Vec<&str> = l.split(' ').collect();
+    if f[0] == "ok" && f.len() >= 5 {
+        Outcome::Ok {
+            errors: f[1].parse().unwrap_or(0),
+            too_deep: f[2] == "1",
+            lossless: f[3] == "1",
+            micros: f[4].parse().unwrap_or(0),
+            lexer_tokens: f.get(5).and_then(|x| x.parse().ok()).unwrap_or(0),
+            failure: f.get(6).and_then(|x| if *x == "-" { None } else { unhex(x) }),
         }
-        Err(std::sync::mpsc::RecvTimeoutError::Timeout) => {
-            let _ = child.proc.kill();
-            let _ = child.proc.wait();
-            *child = spawn_child();
-            Outcome::Timeout(b.as_millis())
-        }
-        Err(std::sync::mpsc::RecvTimeoutError::Disconnected) => {
-            let status = child.proc.wait().map(|s| format!("{s}")).unwrap_or_else(|e| format!("{e}"));
-            *child = spawn_child();
-            Outcome::Crash(status)
-        }
+    } else {
+        Outcome::Panic
     }
 }
 
-/// a case counts as over budget only if it is over budget three times in a row (the machine may
-/// be busy); crashes are retried once to tell a deterministic abort from a killed child
-pub fn run_cases(cases: &[Case]) -> Vec<Outcome> {
-    let mut out = Vec::with_capacity(cases.len());
+/// one synchronous attempt at one case on a fresh child (used to confirm a failure)
+fn attempt_alone(c: &Case, b: Duration) -> Outcome {
     let mut child = spawn_child();
-    for c in cases {
-        let b = budget(c.text.len());
-        let mut o = attempt(&mut child, c, b);
-        let mut tries = 1;
-        while tries < 3 && matches!(o, Outcome::Timeout(_)) {
-            o = attempt(&mut child, c, b);
-            tries += 1;
+    let _ = child.stdin.write_all(case_line(c).as_bytes()).and_then(|_| child.stdin.flush());
+    let o = match child.lines.recv_timeout(b) {
+        Ok(l) => parse_answer(&l),
+        Err(std::sync::mpsc::RecvTimeoutError::Timeout) => Outcome::Timeout(b.as_millis()),
+        Err(std::sync::mpsc::RecvTimeoutError::Disconnected) => {
+            let status = child.proc.wait().map(|s| format!("{s}")).unwrap_or_else(|e| format!("{e}"));
+            Outcome::Crash(status)
         }
-        if matches!(o, Outcome::Crash(_)) {
-            let o2 = attempt(&mut child, c, b);
-            if !matches!(o2, Outcome::Crash(_)) {
-                o = o2;
-            }
-        }
-        out.push(o);
-    }
-    drop(child.stdin);
+    };
+    let _ = child.proc.kill();
     let _ = child.proc.wait();
+    o
+}
+
+/// Run every case in a watchdog child process. Cases are streamed to the child (a writer thread keeps
+/// its stdin full), answers are read in order; the budget of a case runs from the previous answer.
+/// A missing answer (timeout) or a dead child (stack overflow, abort, allocation failure) is
+/// attributed to the first unanswered case, confirmed by up to two more attempts on a fresh child
+/// (the machine may just be busy) — only for the first few failures of a run — and the run continues
+/// with the next case on a new child.
+pub fn run_cases(cases: &[Case]) -> Vec<Outcome> {
+    let mut out: Vec<Outcome> = Vec::with_capacity(cases.len());
+    let mut confirmed = 0usize;
+    while out.len() < cases.len() {
+        let first = out.len();
+        let child = spawn_child();
+        let Child { mut proc, stdin, lines } = child;
+        let failed: Option<Outcome> = std::thread::scope(|sc| {
+            let rest = &cases[first..];
+            sc.spawn(move || {
+                let mut w = std::io::BufWriter::with_capacity(1 << 16, stdin);
+                for c in rest {
+                    if w.write_all(case_line(c).as_bytes()).is_err() {
+                        return;
+                    }
+                    // keep latency low for the case the reader is waiting for
+                    if w.flush().is_err() {
+                        return;
+                    }
+                }
+            });
+            let mut res = None;
+            while out.len() < cases.len() {
+                let c = &cases[out.len()];
+                let b = budget(c.text.len());
+                match lines.recv_timeout(b) {
+                    Ok(l) => out.push(parse_answer(&l)),
+                    Err(std::sync::mpsc::RecvTimeoutError::Timeout) => {
+                        res = Some(Outcome::Timeout(b.as_millis()));
+                        break;
+                    }
+                    Err(std::sync::mpsc::RecvTimeoutError::Disconnected) => {
+                        let status = proc.wait().map(|s| format!("{s}")).unwrap_or_else(|e| format!("{e}"));
+                        res = Some(Outcome::Crash(status));
+                        break;
+                    }
+                }
+            }
+            // stop the child (this also unblocks the writer thread: its pipe breaks)
+            let _ = proc.kill();
+            let _ = proc.wait();
+            res
+        });
+        if let Some(mut o) = failed {
+            let c = &cases[out.len()];
+            let b = budget(c.text.len());
+            if confirmed < 6 {
+                for _ in 0..2 {
+                    let o2 = attempt_alone(c, b);
+                    if matches!(o2, Outcome::Ok { .. }) {
+                        o = o2;
+                        break;
+                    }
+                    o = o2;
+                }
+            }
+            if !matches!(o, Outcome::Ok { .. }) {
+                confirmed += 1;
+            }
+            out.push(o);
+        }
+    }
     out
 }
 
@@ -353,7 +442,7 @@ pub fn run(args: &Args, report: &mut Report) {
             json!({"text_hex": hex(&c.text), "level": level_name(c.level), "doc": c.doc, "bytes": c.text.len(), "label": c.label})
         };
         match o {
-            Outcome::Ok { errors, too_deep, lossless, micros } => {
+            Outcome::Ok { errors, too_deep, lossless, micros, failure, .. } => {
                 if *too_deep {
                     report.count("reported_too_many_syntax_levels");
                     if c.depth > 0 {
@@ -363,7 +452,7 @@ pub fn run(args: &Args, report: &mut Report) {
                 }
                 if *errors > 0 { report.count("with_syntax_errors"); }
                 if !lossless {
-                    report.oracle_failure(json!({"input": input, "what": "parsed without crash but the tree text differs from the input", "class": classify(c)}));
+                    report.oracle_failure(json!({"input": input, "what": format!("parsed without crash but not lossless: {}", failure.clone().unwrap_or_default()), "class": classify(c)}));
                 }
                 if c.text.len() >= 4096 {
                     max_us_per_byte = max_us_per_byte.max(*micros as f64 / c.text.len() as f64);
@@ -372,9 +461,7 @@ pub fn run(args: &Args, report: &mut Report) {
                     report.sample(json!({"input": input, "errors": errors, "too_many_levels_reported": too_deep, "micros": micros.to_string()}));
                 }
             }
-            Outcome::Panic => report.oracle_failure(json!({"input": input, "what": "LuaParser::parse panicked", "class": classify(c)})),
-            Outcome::Crash(st) => report.oracle_failure(json!({"input": input, "what": format!("child process died while parsing on a 2 MiB stack ({st}): stack overflow / abort"), "class": classify(c)})),
-            Outcome::Timeout(ms) => report.oracle_failure(json!({"input": input, "what": format!("no result within the budget of {ms} ms"), "class": classify(c)})),
+            other => report.oracle_failure(json!({"input": input, "what": format!("parser did not return a tree on this input: {}", other.describe()), "class": classify(c)})),
         }
     }
     // tie of the token-layer model used by the C02 theorems (`Core.bump`, `Core.chunkLoop`): the real
